@@ -44,6 +44,8 @@ Check C05_normalize : forall g,
 Print Assumptions C05_normalize.
 Check C05_pow_mag : forall (L : libm) g n, mag (gpow L g n) = powF L (mag g) n.
 Print Assumptions C05_pow_mag.
+Check C05_pow_angle : forall (L : libm) g n, ang (gpow L g n) = geometric_add (ang g) (new n one).
+Print Assumptions C05_pow_angle.
 Check C05_assoc : forall a b c, canonp (rem (ang a)) -> canonp (rem (ang b)) -> canonp (rem (ang c)) ->
   fin (mag (gmul_vv (gmul_vv a b) c)) -> fin (mag (gmul_vv a (gmul_vv b c))) ->
   Rabs (R_ (mag a)) <= bpow radix2 500 -> Rabs (R_ (mag c)) <= bpow radix2 500 ->
